@@ -101,8 +101,8 @@ package beacon
 //@ func (*SyncManager).tryNode(s, global, from, upTo, peer) (ok)
 //@   props C01 C10
 //@   requires s.info != nil && s.scheme != nil && common.validPeriod(s.info.Period) && common.validGenesis(s.info.GenesisTime)
-//@   call Put#0: assert [C01:resync-stores-only-verified-beacons] arg2 != nil && crypto.validSig(s.info.PublicKey, crypto.digestOf(s.scheme, arg2.Round, arg2.PreviousSig), arg2.Signature)
-//@   call Put#1: assert [C01:sync-stores-only-verified-beacons] arg2 != nil && crypto.validSig(s.info.PublicKey, crypto.digestOf(s.scheme, arg2.Round, arg2.PreviousSig), arg2.Signature)
+//@   call Put#0: assert [C01,C10:resync-stores-only-verified-beacons] arg2 != nil && crypto.validSig(s.info.PublicKey, crypto.digestOf(s.scheme, arg2.Round, arg2.PreviousSig), arg2.Signature)
+//@   call Put#1: assert [C01,C10:sync-stores-only-verified-beacons] arg2 != nil && crypto.validSig(s.info.PublicKey, crypto.digestOf(s.scheme, arg2.Round, arg2.PreviousSig), arg2.Signature)
 //@   call Put#0: assert [C10:resync-writes-only-the-requested-rounds] from <= arg2.Round && arg2.Round <= upTo
 
 //@ iface (github.com/drand/drand/v2/internal/net.ProtocolClient).SyncChain(c, ctx, p, in) (ch, err)
@@ -124,8 +124,8 @@ package beacon
 //@   requires [C14] h.l != nil && h.chain != nil && h.chain.CallbackStore != nil && h.conf.Clock != nil && h.crypto.ThresholdScheme != nil && h.crypto.group != nil && h.crypto.DigestBeacon != nil
 //@   requires [C03,C04,C07] h.conf != nil && h.conf.Group != nil && h.crypto != nil && h.crypto.Scheme != nil && h.crypto.share != nil && h.crypto.share.Share != nil
 //@   requires [C03,C04,C07] common.validPeriod(h.conf.Group.Period) && common.validGenesis(h.conf.Group.GenesisTime)
-//@   call NewValidPartial#0: assert [C03:forwarded-partial-verified-against-live-polynomial] p != nil && crypto.validPartial(h.crypto.pub, crypto.digestOf(h.crypto.Scheme, p.Round, p.PreviousSignature), p.PartialSig)
-//@   call NewValidPartial#0: assert [C03:forwarded-partial-from-current-group-member] exists k int :: 0 <= k && k < len(h.crypto.group.Nodes) && h.crypto.group.Nodes[k].Index == crypto.idxOf(p.PartialSig)
+//@   call NewValidPartial#0: assert [C03,C07:forwarded-partial-verified-against-live-polynomial] p != nil && crypto.validPartial(h.crypto.pub, crypto.digestOf(h.crypto.Scheme, p.Round, p.PreviousSignature), p.PartialSig)
+//@   call NewValidPartial#0: assert [C03,C07:forwarded-partial-from-current-group-member] exists k int :: 0 <= k && k < len(h.crypto.group.Nodes) && h.crypto.group.Nodes[k].Index == crypto.idxOf(p.PartialSig)
 //@   call NewValidPartial#0: assert [C03:own-partial-replay-never-forwarded] crypto.idxOf(p.PartialSig) != h.crypto.share.Share.I
 //@   call NewValidPartial#0: assert [C04:partial-at-most-one-round-ahead-of-clock] p.Round <= nextRound
 //@   call NextRound#0: assert [C04:future-check-uses-group-schedule] arg1 == h.conf.Group.Period && arg2 == h.conf.Group.GenesisTime
